@@ -6,9 +6,9 @@ from vlib.core import qlit, qvec, qmat, coqbool, natlist, blist
 
 OBLIGATIONS = dict(
     prop_file='Properties/C01.v',
-    glue=['Glue/CoreGlue.v', 'Glue/EinopsGlueBase.v', 'Glue/EinopsGlueHeads.v'] + ['Glue/Pin_fp_C01.v'],
+    glue=['Glue/CoreGlue.v', 'Glue/EinopsGlueBase.v', 'Glue/EinopsGlueHeads.v'] + ['Glue/Pin_fp_C01.v', 'Glue/RequantGlue.v'],
     extra=['Model/CoreCheck.vo'],
-    gen_items=['k_cdist', 'g_gumbel_noise', 'o_euclid_collectives', 'o_cosine_collectives', 'o_rpq_eval', 'p_select', 'pr_vq', 'fp_C01'],
+    gen_items=['k_cdist', 'g_gumbel_noise', 'o_euclid_collectives', 'o_cosine_collectives', 'o_rpq_eval', 'p_select', 'pr_vq', 'o_vq_codebook_calls', 'fp_C01'],
 )
 ASSUMPTIONS = [
     'nn.Linear / LayerNorm projections, the QINCo MLP and SimVQ.code_transform are opaque: the harness applies the module\'s own sub-network and hands Coq its output ("after the quantizer\'s own input projection")',
